@@ -21,14 +21,16 @@ from mc.core import proc
 
 PROPERTY = "C20"
 LEVEL = "model_checking"
-RULE = ("states = distinct budget trees reachable from 15 initial trees by <= D commands (D=3 quick, 6 thorough or fixpoint); transitions = "
+RULE = ("states = distinct budget trees reachable from 16 initial trees by <= D commands (D=3 quick, 6 thorough or fixpoint); transitions = "
         "(tree, command) pairs over 13 commands, each executed by the real CLI in a forked process; invariant per transition = frame condition "
         "of the property for that command class (read-only / init / explicit migration)")
 ASSUMPTIONS = ["commands run non-interactively: stdin=/dev/null, stdout/stderr not a tty",
                "bytes of files tally itself creates, and the contents of the output location, are not judged",
                "`tally init` may move a legacy CSV that has rules to .bak (byte-identical) when no merchants.rules exists, and may append to settings.yaml"]
 
-STMT = "Date,Description,Amount\n01/10/2025,NETFLIX.COM,15.99\n01/11/2025,COFFEE SHOP,4.50\n02/11/2025,MYSTERY STORE 1234,25.00\n"
+STMT = ("Date,Description,Amount\n01/10/2025,NETFLIX.COM,15.99\n01/11/2025,COFFEE SHOP,4.50\n02/11/2025,MYSTERY STORE 1234,25.00\n"
+        # rows no command can read (pending date, amount n/a): they are skipped, not written anywhere
+        "Pending,HOLD AT PUMP,30.00\n02/12/2025,FEE WAIVED,n/a\n")
 SETTINGS_FULL = ('year: 2025\nmerchants_file: config/merchants.rules\nviews_file: config/views.rules\ndata_sources:\n  - name: Card\n'
                  '    file: data/s.csv\n    format: "{date:%m/%d/%Y},{description},{amount}"\n')
 SETTINGS_NOVIEWS = SETTINGS_FULL.replace("views_file: config/views.rules\n", "").replace("\n", "\r\n")   # CRLF file
@@ -71,6 +73,8 @@ INITIAL = {
     # files init knows how to create already exist with the user's own content (.gitignore without data/ and output/ entries)
     "own-gitignore": _old({"config/settings.yaml": SETTINGS_FULL, "config/merchants.rules": RULES, "config/views.rules": VIEWS, "data/s.csv": STMT,
                            ".gitignore": "# mine\n*.bak\nnotes/\n", "config/.gitignore": "secret.yaml\n"}),
+    # zero-length files where init would put a starter: they exist, so they stay as they are
+    "empty-config-files": _old({"config/settings.yaml": SETTINGS_FULL, "config/merchants.rules": "", "config/views.rules": "", "data/s.csv": STMT}),
     # earlier backups with gaps in their numbering (a new backup must take a name that is free)
     "legacy-csv-bak1-only": _old({"config/settings.yaml": SETTINGS_BARE, "config/merchant_categories.csv": CSV_RULES,
                                   "config/merchant_categories.csv.bak.1": OLD_BAK, "data/s.csv": STMT}),
